@@ -163,7 +163,10 @@ func selfValidate(prop, repo, verif string) []string {
 	start := time.Now()
 	muts, _ := filepath.Glob(filepath.Join(verif, "seeded", prop+"-*", "patch.diff"))
 	benign, _ := filepath.Glob(filepath.Join(verif, "checker", "selftest", "benign", "*.diff"))
+	rmuts, _ := filepath.Glob(filepath.Join(verif, "checker", "selftest", "mutants", prop+"-*.diff"))
+	sort.Strings(rmuts)
 	sort.Strings(muts)
+	muts = append(muts, rmuts...)
 	sort.Strings(benign)
 	type job struct {
 		patch  string
@@ -183,7 +186,7 @@ func selfValidate(prop, repo, verif string) []string {
 		text    string
 	}
 	outs := make([]out, len(jobs))
-	sem := make(chan struct{}, 6)
+	sem := make(chan struct{}, 8)
 	var wg sync.WaitGroup
 	for i, j := range jobs {
 		wg.Add(1)
@@ -209,7 +212,7 @@ func selfValidate(prop, repo, verif string) []string {
 	nm, dm, nb, sb, skipped := 0, 0, 0, 0, 0
 	for _, o := range outs {
 		name := filepath.Base(filepath.Dir(o.patch))
-		if !o.mutant {
+		if !o.mutant || filepath.Base(o.patch) != "patch.diff" {
 			name = filepath.Base(o.patch)
 		}
 		switch {
